@@ -110,6 +110,10 @@ VARIATIONS = [
     ("levels-scalar-vs-list", {"levels": [2]}, {"levels": 2}),
     ("levels-long", {"levels": "long1", "halo": 12.0}, {"levels": "long2", "halo": 12.0}),
     ("modes", {}, {"modes": [4, 2]}),
+    # the solver clamps BOTH counts to the padded grid as soon as ONE exceeds it (6 x 4 here, halo 0): a request with one
+    # oversized count is solved with (6, 4), the request that a per-axis min() would identify it with is solved with (6, 2)
+    ("modes-one-oversized", {"halo": 0.0, "modes": [8, 2]}, {"halo": 0.0, "modes": [6, 2]}),
+    ("modes-one-oversized-y", {"halo": 0.0, "modes": [2, 8]}, {"halo": 0.0, "modes": [2, 4]}),
     ("meas_pt", {}, {"meas": [5.0, 2.0]}),
     ("srf_bg_conc", {}, {"bg": 1.5}),
     ("srf_bg_conc-explicit-halo", {"halo": 12.0}, {"halo": 12.0, "bg": -0.5}),
